@@ -39,9 +39,10 @@ VARIABLES loose,   \* [Keys -> {"absent","good","bad"}]
           map,     \* L2 oracle: set of keys a plain mapping would hold
           repacked, \* ghost: some repack has happened (C13 speaks of histories without repack)
           locked,  \* pack ids whose lock file lies in the packs folder (left by a killed writer: environment)
+          tmpleft, \* the temporary pack -1 of an interrupted repack lies in the packs folder (environment)
           last     \* the last call and its result (observation only)
 
-vars == <<loose, pack, pex, idx, pinned, snap, cur, map, repacked, locked, last>>
+vars == <<loose, pack, pex, idx, pinned, snap, cur, map, repacked, locked, tmpleft, last>>
 core == <<loose, pack, pex, idx, pinned, snap, cur, map, repacked>>
 
 Junk == "junk"
@@ -160,6 +161,7 @@ Init == /\ loose = [k \in Keys |-> "absent"]
         /\ repacked = FALSE
         /\ last = Rec("init", "-", <<>>, {}, "")
         /\ locked = {}
+        /\ tmpleft = FALSE
 
 (* add_object / add_streamed_object (container.py:987-1016, utils.py:343-495):
    the index is not consulted; a damaged existing copy is replaced *)
@@ -371,7 +373,15 @@ Unlock == /\ locked # {} /\ locked' = {}
 (* exhaustive configurations and by the simulation that generates          *)
 (* histories for replay on the real library).                              *)
 (* (every disjunct is a separate action for TLC: its simulator picks an action first, then one of its successors) *)
-NL == UNCHANGED locked
+NL == UNCHANGED <<locked, tmpleft>>
+(* A repack killed while it copies leaves packs/-1 behind.  repack_pack (container.py:2605) refuses to start while that
+   file exists -- before it touches anything -- so a full repack is refused as soon as there is a pack to repack; the
+   operator has to look at the file and remove it. *)
+TmpLeft == /\ ~tmpleft /\ tmpleft' = TRUE /\ last' = Rec("tmppack", "-", <<>>, {}, "") /\ UNCHANGED <<core, locked>>
+TmpRemove == /\ tmpleft /\ tmpleft' = FALSE /\ last' = Rec("rmtmp", "-", <<>>, {}, "") /\ UNCHANGED <<core, locked>>
+RepackRefused(h, mode) == /\ tmpleft /\ pex # {}
+                          /\ last' = [Rec("repack", h, <<>>, {}, "AssertionError") EXCEPT !.mode = mode]
+                          /\ UNCHANGED <<core, locked, tmpleft>>
 NextWithLocks(Batches, DelSets, HasSets, ImpSets, Src, PackModes, RepackModes, WithLocks) ==
     \/ \E h \in Handles, k \in Keys : AddLoose(h, k) /\ NL
     \/ \E h \in Handles, ks \in Batches, z \in BOOLEAN, nh \in BOOLEAN, tw \in BOOLEAN :
@@ -380,7 +390,10 @@ NextWithLocks(Batches, DelSets, HasSets, ImpSets, Src, PackModes, RepackModes, W
           \E order \in SetToSeqs(LoosePresent \ KeysOf(V(h))) : (order = <<>> \/ ~Blocked(h)) /\ PackAllLoose(h, mode, pp, order) /\ NL /\ LeavesLockedAlone
     \/ \E h \in Handles : Clean(h) /\ NL
     \/ \E h \in Handles, S \in DelSets : Delete(h, S) /\ NL
-    \/ \E h \in Handles, mode \in RepackModes : Repack(h, mode) /\ NL
+    \/ \E h \in Handles, mode \in RepackModes : (~tmpleft \/ pex = {}) /\ Repack(h, mode) /\ NL
+    \/ \E h \in Handles, mode \in RepackModes : WithLocks /\ RepackRefused(h, mode)
+    \/ WithLocks /\ TmpLeft
+    \/ WithLocks /\ TmpRemove
     \/ \E h \in Handles, S \in HasSets : Has(h, S) /\ NL
     \/ \E h \in Handles : List(h) /\ NL
     \/ \E h \in Handles : ListPart(h) /\ NL
@@ -390,12 +403,12 @@ NextWithLocks(Batches, DelSets, HasSets, ImpSets, Src, PackModes, RepackModes, W
               (order = <<>> \/ ~Blocked(h)) /\ Import(h, S, z, sh, order, Src) /\ NL /\ LeavesLockedAlone
     \/ \E h \in Handles : Reopen(h) /\ NL
     \/ \E h \in Handles : InitAgain(h) /\ NL
-    \/ WithLocks /\ LockStale
-    \/ WithLocks /\ Unlock
+    \/ WithLocks /\ LockStale /\ UNCHANGED tmpleft
+    \/ WithLocks /\ Unlock /\ UNCHANGED tmpleft
     \/ \E h \in Handles, ks \in Batches, z \in BOOLEAN, nh \in BOOLEAN, tw \in BOOLEAN :
-          WithLocks /\ (nh \/ tw) /\ AddToPackRefused(h, ks, z, nh, tw)
-    \/ \E h \in Handles, mode \in PackModes, pp \in BOOLEAN : WithLocks /\ PackRefused(h, mode, pp)
-    \/ \E h \in Handles, S \in ImpSets, z \in BOOLEAN, sh \in BOOLEAN : WithLocks /\ ImportRefused(h, S, z, sh, Src)
+          WithLocks /\ (nh \/ tw) /\ AddToPackRefused(h, ks, z, nh, tw) /\ UNCHANGED tmpleft
+    \/ \E h \in Handles, mode \in PackModes, pp \in BOOLEAN : WithLocks /\ PackRefused(h, mode, pp) /\ UNCHANGED tmpleft
+    \/ \E h \in Handles, S \in ImpSets, z \in BOOLEAN, sh \in BOOLEAN : WithLocks /\ ImportRefused(h, S, z, sh, Src) /\ UNCHANGED tmpleft
 NextWith(Batches, DelSets, HasSets, ImpSets, Src, PackModes, RepackModes) ==
     NextWithLocks(Batches, DelSets, HasSets, ImpSets, Src, PackModes, RepackModes, FALSE)
 
@@ -406,6 +419,7 @@ Undamaged == \A k \in Keys : loose[k] # "bad"
 TypeOK == /\ loose \in [Keys -> {"absent", "good", "bad"}]
           /\ pex \subseteq PackIdsAll
           /\ locked \subseteq PackIdsAll
+          /\ tmpleft \in BOOLEAN
           /\ map \subseteq Keys
 
 (* L1 refines L2: the store is the map *)
@@ -444,5 +458,5 @@ Act_DeleteExact ==
 Act_RepackCompact == [][ IsOp("repack") => RepackCompact(ObsOf') ]_vars
 
 Act_MaintenanceKeepsMap ==
-    [][ (last'.op \in {"pack", "clean", "repack", "loosen", "reopen", "has", "list", "listpart", "initagain", "stalelock", "unlock"}) => map' = map ]_vars
+    [][ (last'.op \in {"pack", "clean", "repack", "loosen", "reopen", "has", "list", "listpart", "initagain", "stalelock", "unlock", "tmppack", "rmtmp"}) => map' = map ]_vars
 =============================================================================
